@@ -98,6 +98,51 @@ add("C06", "E2 fq-mc (+ E3 socket-level quiescence oracle)", "model_checking",
     "Same merging argument as C05. Memory orderings inside parking_lot are not explored.",
     "explicit-state BFS to fixpoint with per-state liveness (fair-drain) oracle on the real fair queue")
 
+add("C07", "E3 sock-mc (sequential, complete product)", "model_checking",
+    "Complete product of payload shapes (1..4 frames, each empty / 1 byte / 256 bytes; thorough adds 70 kB) x routing prefixes of 0..3 "
+    "identity frames (1 B / 255 B) x three set-ups on the real sockets over in-memory pipes: real REQ against a raw REP peer (exact "
+    "wire envelope after send; delimiter stripped exactly on recv; 4 malformed reply shapes never handed over as Ok), raw "
+    "REQ/DEALER/ROUTER-chain peer against a real REP (recv = frames after the first empty frame; reply = saved prefix + delimiter + "
+    "reply), real REQ against real REP back to back; plus degenerate requests (delimiter-only, single frame, delimiter last) that must "
+    "never surface as a zero-frame message. Wire bytes are judged by the independent reference decoder.",
+    "DESIGN.md 5.7",
+    "Envelope handling is sequential per socket, so one schedule per case. Requests with no empty frame are not judged (undefined by "
+    "the statement).",
+    "exhaustive enumeration of payload x envelope shapes on the real sockets against reference envelope rules")
+
+add("C08", "E3 sock-mc", "model_checking",
+    "(a) Every call sequence over {send, recv} of length <= 6 on a real REQ (0/1/2 echo peers) and a real REP (requests queued by 1/2 "
+    "peers) is executed and compared step by step with a 2-state reference machine: out-of-turn calls fail, hand the message back "
+    "frame for frame, write nothing, leave the state unchanged; a reply lands on exactly the requester's connection. (b) 2 (thorough "
+    "3) real REQ sockets against one real REP over in-memory pipes under EVERY schedule with <= 3 deviations (scheduling order, "
+    "yield points, deliveries inside pipe reads) from 3 default policies: each client receives exactly the echoes of its own "
+    "requests, in order. Reply mis-routing needs interleavings the OS scheduler rarely produces; here they are enumerated.",
+    "DESIGN.md 5.8",
+    "One poll between yield points is atomic. Echo peers are harness state machines.",
+    "exhaustive call-sequence enumeration against a reference state machine + stateless deviation-bounded DFS over real sockets")
+
+add("C09", "E3 sock-mc", "model_checking",
+    "Real ROUTER with 1-3 raw peers (announced 1-byte / 255-byte identities, auto-assigned ones), each sending multipart messages, "
+    "under every schedule within the deviation bound from 3 default policies; oracle: first frame of each recv result = identity "
+    "returned by that connection's attach, rest = reference decode of that peer's bytes, per peer in order; sends to each identity "
+    "appear minus the first frame on exactly that wire; unknown identities fail with no wire growing; a peer that closed both "
+    "directions is not reachable and causes no bytes elsewhere.",
+    "DESIGN.md 5.9",
+    "Auto identities come from a per-execution counter through a seam in the vendored uuid crate (values are unique, reproducible). "
+    "Single-frame sends are outside the statement.",
+    "stateless deviation-bounded DFS over the real socket against wire-tap ground truth")
+
+add("C10", "E3 sock-mc", "model_checking",
+    "Real PUSH, DEALER and REQ with 0..2 (thorough 3) raw peers x 3 message shapes (incl. 200 kB) x write behaviour of one connection "
+    "(accept all / few bytes per write / stall-then-resume) x sends racing with joins, under every schedule within the deviation "
+    "bound from 3 default policies; the oracle is evaluated at the very step send() returns: exactly one peer's application bytes "
+    "grew, by exactly the reference encoding (nothing left in the framed writer); any n consecutive successful sends with n stable "
+    "peers hit n distinct peers; no peer => ReturnToSender with identical frames and no wire grows.",
+    "DESIGN.md 5.10",
+    "Rotation is judged over the phase after every attach has returned (a peer between its registration steps may or may not be in "
+    "the rotation yet).",
+    "stateless deviation-bounded DFS over the real sockets with per-step wire-tap oracle")
+
 PENDING = ["C01","C02","C03","C04","C05","C06","C07","C08","C09","C10","C11","C12","C13","C14","C15","C16","C17","C18","C20"]
 
 def main():
